@@ -86,3 +86,14 @@ Proof.
   exists (rawset_state st 6 k_z (VNum 7%float)). split; [apply rawset_never_calls_lemma; reflexivity|].
   split; vm_compute; reflexivity.
 Qed.
+
+(* a protected metatable: table 11 -> mt 12 = {__metatable = "locked", __tostring = f3} *)
+Definition st_p : state :=
+  with_tabs st (tabs st ++ [mkTab [] (Some 12%nat);
+                            mkTab [(VStr s_mm_metatable, VStr [108]); (VStr s_mm_tostring, VFun 3)] None]).
+Example ex_getmetatable_protected : builtin_call 3 [] BGetMt [VTab 11] st_p = Ret [VStr [108]] st_p.
+Proof. rewrite getmetatable_lemma. reflexivity. Qed.
+Example ex_setmetatable_protected : is_err_unchanged st_p (builtin_call 3 [] BSetMt [VTab 11; VNil] st_p).
+Proof. apply setmetatable_protected_lemma. reflexivity. Qed.
+Example ex_tostring_handler : exists s', tostring_v 40 [] (VTab 11) st_p = Ret (VNum 99%float) s'.
+Proof. eexists. rewrite (tostring_handler_lemma 39 [] (VTab 11) st_p eq_refl). vm_compute. reflexivity. Qed.
